@@ -32,7 +32,7 @@ func C02_Jobs() []string {
 		out = append(out, "afterpanic/"+j)
 	}
 	out = append(out, "extra/preprocess-slice", "extra/preprocess-struct/parse", "extra/preprocess-struct/validate", "extra/own-coercer", "extra/multi-issue-test/parse", "extra/multi-issue-test/validate",
-		"extra/blank-strings", "extra/decode-failure", "extra/own-tests-all-reported/parse", "extra/own-tests-all-reported/validate", "extra/time-eq-zones")
+		"extra/blank-strings", "extra/decode-failure", "extra/own-tests-all-reported/parse", "extra/own-tests-all-reported/validate", "extra/time-eq-zones", "extra/long-slice-keys/parse", "extra/long-slice-keys/validate")
 	return out
 }
 func C01_Covers() []string { return []string{"no-issues", "issues"} }
@@ -354,6 +354,35 @@ func c02Extra(kind, mode string) {
 			le = z.Slice(z.Int()).Min(3).Max(0).Parse([]any{1}, &top)
 		}
 		v.Assert(len(le["$root"]) == 2, "C02:issues-differ-from-violations")
+	case "long-slice-keys":
+		// a violation at item i is reported at [i], for every i of a list longer than 100 items
+		n := []int{12, 17, 102}[v.Choice("len", 3)]
+		badAt := []int{9, 10, 11, 15, 16, 99, 100, 101}[v.Choice("bad", 8)]
+		if badAt >= n {
+			badAt = n - 1
+		}
+		in := make([]any, n)
+		vals := make([]int, n)
+		for i := range in {
+			in[i], vals[i] = 500, 500
+		}
+		in[badAt], vals[badAt] = 5, 5
+		key := "[" + v.Itoa(badAt) + "]"
+		var top []int
+		var errs z.ZogIssueMap
+		var d struct{ L []int }
+		var es z.ZogIssueMap
+		if mode == "validate" {
+			top = vals
+			errs = z.Slice(z.Int().GT(100)).Validate(&top)
+			d.L = vals
+			es = z.Struct(z.Schema{"l": z.Slice(z.Int().GT(100))}).Validate(&d)
+		} else {
+			errs = z.Slice(z.Int().GT(100)).Parse(in, &top)
+			es = z.Struct(z.Schema{"l": z.Slice(z.Int().GT(100))}).Parse(map[string]any{"l": in}, &d)
+		}
+		v.Assert(len(errs) == 2 && len(errs[key]) == 1 && errs[key][0].Path == key, "C02:issues-differ-from-violations")
+		v.Assert(len(es) == 2 && len(es["l"+key]) == 1 && es["l"+key][0].Path == "l"+key, "C02:issues-differ-from-violations")
 	case "time-eq-zones":
 		// a value that satisfies its node yields no issue: the same instant in another location
 		sec := v.Int64("sec")
